@@ -1192,6 +1192,10 @@ class Extractor:
                 return FRESH
         if name == "dict" and not pos and not su:
             return union(list(kw.values()), kind="container", const=Const(KDict(kw)))
+        if name == "isinstance" and len(pos) == 2 and pos[0].kind == "ndarray" and len(e.args) == 2:
+            names = {n.id if isinstance(n, ast.Name) else n.attr for n in ast.walk(e.args[1]) if isinstance(n, (ast.Name, ast.Attribute))}
+            if names and names <= {"FunctionType", "MethodType", "LambdaType", "BuiltinFunctionType", "BuiltinMethodType", "types"}:
+                return AV(const=Const(False))          # an ndarray is not a function
         if name in BUILTIN_FRESH:
             return FRESH
         if name in BUILTIN_ALIAS:
@@ -1745,6 +1749,11 @@ class Extractor:
             if a.annotation is not None and isinstance(a.annotation, ast.Name) and a.annotation.id == "str":
                 # fixture: a LOCAL file name with extension .rec (the dynamic run uses such names)
                 self.st.consts[v] = Const(DRIVER_FNAME)
+                self.st.nn[v] = True
+            elif a.annotation is None:
+                # an unannotated driver parameter IS a numpy array (that is what the dynamic run passes): kind "ndarray" travels with
+                # plain name loads and argument passing and lets `isinstance(x, (FunctionType, MethodType))` fold to False
+                self.st.kinds[v] = "ndarray"
                 self.st.nn[v] = True
         self.stack.append(id(fdef))
         self.block(fdef.body, fr)
